@@ -230,11 +230,24 @@ def r3_scan(rep, ctx):
         return any(a_[0] == "attr" and a_[2] == "CheckValue" for a_ in alternatives(t))
 
     # --- flat branch: loops over the iterator
-    it_loops = [lp for lp in loops if isinstance(lp.iter, ast.Name) and lp.iter.id == "iterator"]
-    if len(it_loops) < 1:
-        raise AnalysisError("Array._DoValidateValues: scan loops over `iterator` not found (scan idiom changed)")
     def isnan_test(t, var):
-        return isinstance(t, ast.Call) and len(t.args) == 1 and isinstance(t.args[0], ast.Name) and t.args[0].id == var and ("nan" in ast.unparse(t.func).lower() or "isnam" in ast.unparse(t.func))
+        if not (isinstance(t, ast.Call) and len(t.args) == 1 and isinstance(t.args[0], ast.Name) and t.args[0].id == var):
+            return False
+        ft = sres.term(t.func)
+        return any(x[0] == "attr" and x[2] == "isnan" or x == ("name", "isnan") for x in alternatives(ft)) or "isnan" in ast.unparse(t.func).lower()
+
+    # the scan loops of the flat branch: loops over the values (or an iterator over them) whose element is NaN-tested
+    vparam = ("param", fn.params.index("values"), "values") if "values" in fn.params else None
+
+    def over_values(lp):
+        t = sres.term(lp.iter)
+        return any(a_ == vparam or (a_[0] == "call" and a_[1] == ("name", "iter") and a_[2] == (vparam,)) for a_ in alternatives(t))
+
+    it_loops = [lp for lp in loops if isinstance(lp.target, ast.Name) and over_values(lp)
+                and any(isnan_test(x, lp.target.id) for x in ast.walk(fn.node) if isinstance(x, ast.Call))
+                and not any(isinstance(x, ast.Call) and isinstance(x.func, ast.Name) and x.func.id == "isinstance" and x.args and isinstance(x.args[0], ast.Name) and x.args[0].id == lp.target.id for x in ast.walk(lp))]
+    if len(it_loops) < 1:
+        raise AnalysisError("Array._DoValidateValues: scan loops over the values with a NaN test not found (scan idiom changed)")
     from ..facts import facts as nfacts
     scfg = CFG(fn.node)
     total_reads = 0
